@@ -118,5 +118,5 @@ def run(rep):
 
 
 def replay(rep, case):
-    from .. import dwtchecks
-    dwtchecks.replay_case(rep, case)
+    from ..replay import rerun
+    rerun(rep, case, run)
